@@ -64,6 +64,13 @@ def _name_positions(ctx, repo) -> None:
 
 def check(ctx) -> None:
     repo = ctx.repo
+    ctx.rule("C24.escape", "WHO-MAY: no read of a libcst string node's raw_value (escape sequences unprocessed) where the value of a literal is needed; expected count zero, detector self-checked on a synthetic positive", floor=1)
+    from sa.engine.prop import raw_string_value_reads, raw_string_value_selfcheck
+    if not raw_string_value_selfcheck():
+        raise AnalysisError("C24.escape: the raw_value detector does not match its own positive example")
+    ctx.ok("C24.escape", None, "detector matches the synthetic positive example")
+    for _mod, _n in raw_string_value_reads(ctx.repo, ("pynguin.large_language_model.parsing", "pynguin.analyses.seeding", "pynguin.assertion.assertion_to_ast")):
+        ctx.fail("C24.escape", _n, f"{_mod.name}: `{norm(_n)}` reads the source text between the quotes, escape sequences unprocessed, as the value of a string literal: an exported `assert var_0 == 'alpha\\nbeta'` is read back as the text with a literal backslash-n: different value, failing assertion", stmt=f"[raw_value] {norm(_n)}")
     ctx.rule("C24.roundtrip", "ABSINT: parse_assertion(assertion_to_cst(a)) renders to the same text as a, for one representative per assertion shape the exporter emits", floor=8)
     ctx.rule("C24.name-positions", "sibling agreement: every CST visitor of the deserializer that treats Names as references exempts the keyword of call arguments and the attribute name of attribute accesses, as its siblings do", floor=6)
     _name_positions(ctx, repo)
